@@ -324,19 +324,54 @@ func runC17(r *Report) {
 				}
 			}
 		}
+		// the reservation and the release may be helpers of the handler: an acquire helper returns
+		// nil with the counter one higher and an error with the counter unchanged; a release helper
+		// lowers it by one on every path
+		incIsHelper := false
+		if inc == nil || dec == nil {
+			Instrs(hc, func(in ssa.Instruction) {
+				ci, ok := in.(ssa.CallInstruction)
+				if !ok {
+					return
+				}
+				h := ci.Common().StaticCallee()
+				if h == nil || h.Pkg != hc.Pkg || len(h.Blocks) == 0 {
+					return
+				}
+				okd, errd, any := counterDeltas(h, "activeConnCount")
+				if !any {
+					return
+				}
+				if _, isDefer := in.(*ssa.Defer); isDefer && dec == nil && len(okd) == 1 && okd[0] == -1 && len(errd) == 0 {
+					dec = ci
+				}
+				if _, isCall := in.(*ssa.Call); isCall && inc == nil && len(okd) == 1 && okd[0] == 1 && (len(errd) == 0 || (len(errd) == 1 && errd[0] == 0)) {
+					inc = ci
+					incIsHelper = true
+				}
+			})
+		}
 		ok := inc != nil && dec != nil && Before(inc.(ssa.Instruction), dec.(ssa.Instruction))
 		if ok {
-			// no return between the reservation and the registration of its release
+			// no return between the reservation and the registration of its release (the failure edge
+			// of an acquire helper holds nothing and may return)
 			hits := WalkFrom(nil, inc.(ssa.Instruction), func(in ssa.Instruction) int {
 				if in == dec.(ssa.Instruction) {
 					return Stop
 				}
-				if _, isRet := in.(*ssa.Return); isRet {
+				if ret, isRet := in.(*ssa.Return); isRet {
+					if incIsHelper && ErrFailed(ret.Block(), inc) {
+						return Stop
+					}
 					return Hit
 				}
 				return Cont
 			}, nil)
 			ok = len(hits) == 0
+			// ... and the release is registered only once the reservation succeeded
+			if ok && incIsHelper && !ErrOK(dec.Block(), inc) {
+				ok = false
+			}
 		}
 		r.Ob("R-C17-2", hc.Pos(), ok, "the slot reserved by Add(1) is released by a deferred Add(-1) registered before any return (a refused or finished connection gives its slot back)", "handleConnection", "slot-released")
 		// exactly once: with the deferred release registered no other decrement of the counter exists
@@ -543,4 +578,56 @@ func checkLenLimit(r *Report, f *ssa.Function, cmp *ssa.BinOp, mapField, limit s
 		})
 		r.Ob("R-C17-1", cmp.Pos(), decided, "limit "+limit+": this comparison with len("+mapField+") is made outside the critical section that inserts; without a deciding comparison inside that section concurrent admissions at limit-1 all pass", key...)
 	}
+}
+
+// counterDeltas summarises what h does to the atomic counter field: the net constant added on
+// paths to returns whose error is nil (or that have no error result) and on paths to returns with a
+// non-nil error. any is false when h does not touch the counter. Loops are not followed.
+func counterDeltas(h *ssa.Function, field string) (okDeltas, errDeltas []int64, any bool) {
+	if len(h.Blocks) == 0 {
+		return
+	}
+	okSet, errSet := map[int64]bool{}, map[int64]bool{}
+	type st struct {
+		b *ssa.BasicBlock
+		d int64
+	}
+	seen := map[st]bool{}
+	var walk func(b *ssa.BasicBlock, d int64, path map[*ssa.BasicBlock]bool)
+	walk = func(b *ssa.BasicBlock, d int64, path map[*ssa.BasicBlock]bool) {
+		if path[b] || seen[st{b, d}] {
+			return
+		}
+		seen[st{b, d}] = true
+		path[b] = true
+		defer delete(path, b)
+		for _, in := range b.Instrs {
+			if c, ok := in.(*ssa.Call); ok && CalleeOf(c).Is("atomic:Int32.Add", "atomic:Int64.Add") {
+				if _, f, _, isF := FieldOf(Recv(c)); isF && f == field {
+					if k, isK := ConstInt(Arg(c, 0)); isK {
+						d += k
+						any = true
+					}
+				}
+			}
+			if ret, ok := in.(*ssa.Return); ok {
+				if len(ret.Results) > 0 && ret.Results[len(ret.Results)-1].Type().String() == "error" && RetErrKind(ret) != "nil" {
+					errSet[d] = true
+				} else {
+					okSet[d] = true
+				}
+			}
+		}
+		for _, s := range b.Succs {
+			walk(s, d, path)
+		}
+	}
+	walk(h.Blocks[0], 0, map[*ssa.BasicBlock]bool{})
+	for k := range okSet {
+		okDeltas = append(okDeltas, k)
+	}
+	for k := range errSet {
+		errDeltas = append(errDeltas, k)
+	}
+	return
 }
